@@ -78,26 +78,27 @@ type analysis struct {
 }
 
 type visitor struct {
-	a         *analysis
-	p         *Pkg
-	r         *region
-	b         *wbody
-	fn        string
-	localExt  [][2]token.Pos
-	named     bool
-	shared    map[types.Object]bool
-	alias     map[types.Object]pth
-	own       map[types.Object]string
-	rangeLo   map[types.Object]bool
-	rangeHi   map[types.Object]bool
-	stride    map[types.Object]string
-	loopBound map[types.Object]string
-	taint     map[types.Object]bool
-	guard     string
-	eq        string
-	seenLits  map[*ast.FuncLit]bool
-	allowGo   bool
-	top       ast.Node
+	a          *analysis
+	p          *Pkg
+	r          *region
+	b          *wbody
+	fn         string
+	localExt   [][2]token.Pos
+	named      bool
+	shared     map[types.Object]bool
+	alias      map[types.Object]pth
+	own        map[types.Object]string
+	rangeLo    map[types.Object]bool
+	rangeHi    map[types.Object]bool
+	stride     map[types.Object]string
+	loopBound  map[types.Object]string
+	taint      map[types.Object]bool
+	guard      string
+	eq         string
+	seenLits   map[*ast.FuncLit]bool
+	allowGo    bool
+	methodPass bool
+	top        ast.Node
 }
 
 func (a *analysis) newVisitor(r *region, b *wbody, fn string) *visitor {
@@ -371,6 +372,8 @@ func (v *visitor) specialRecv(x ast.Expr, k akind, how string) {
 	}
 	v.r.roots[p.root] = true
 	v.reach(p.root)
+	// the variable holding the object is read; the operation on the object itself is synchronising
+	v.add(x.Pos(), p.path, false, "", 'R', kVar, "")
 	v.add(x.Pos(), p.path, len(p.idxs) > 0 && !p.mapBase, "", 'W', k, how)
 }
 
@@ -720,7 +723,7 @@ func (v *visitor) define(s *ast.AssignStmt) {
 							v.rangeLo[v.obj(lo)] = true
 							v.rangeHi[v.obj(hi)] = true
 						}
-					} else {
+					} else if !v.methodPass {
 						v.fail(s, "RecordRange called with something else than the worker's own index")
 					}
 				}
@@ -1043,7 +1046,7 @@ func classify(r *region) {
 	for _, a := range r.acc {
 		switch a.kind {
 		case kChan:
-			a.cls, a.how = "chan", a.how
+			a.cls = "chan"
 			continue
 		case kWG:
 			a.cls = "wg"
